@@ -84,7 +84,7 @@ pub struct AspCase {
 
 pub struct C14;
 
-fn asp_cfg() -> AspCfg {
+pub fn asp_cfg() -> AspCfg {
     AspCfg {
         preds: vec![("p".into(), 1), ("q".into(), 2), ("s".into(), 0), ("_r".into(), 1), ("notp".into(), 1), ("p_1".into(), 3)],
         vars: vec!["X".into(), "Y".into(), "V1".into(), "Abc9".into()],
@@ -295,7 +295,7 @@ pub struct FolCase {
 
 pub struct C15;
 
-fn fol_cfg() -> FolCfg {
+pub fn fol_cfg() -> FolCfg {
     FolCfg {
         preds: vec![("p".into(), 1), ("q".into(), 2), ("s".into(), 0), ("_r".into(), 1), ("p_1".into(), 3)],
         gvars: vec!["X".into(), "Y".into(), "V1".into(), "_U".into(), "A_b1".into()],
